@@ -42,4 +42,26 @@ theorem mem_blobs_length (w : Nat) (p b : Pattern) (hb : b ∈ blobs w p) : b.le
   obtain ⟨i, hi, rfl⟩ := hb
   simp; omega
 
+/-- deltaForm in sum form -/
+theorem deltaForm_sum (w : Nat) (p : Pattern) :
+    deltaForm w p = ((blobs w p).map (fun b => (sigma p - sigmaOf (countPos b) (countNeg b) w) *
+      (sigma p - sigmaOf (countPos b) (countNeg b) w))).sum / ((blobs w p).length : Rat) := by
+  unfold deltaForm; simp only []; rw [foldl_add_div]; simp
+
+theorem deltaForm_nonneg (w : Nat) (p : Pattern) : 0 ≤ deltaForm w p := by
+  rw [deltaForm_sum]
+  apply div_nonneg
+  · apply List.sum_nonneg
+    intro x hx
+    simp only [List.mem_map] at hx
+    obtain ⟨b', _, rfl⟩ := hx
+    exact mul_self_nonneg _
+  · exact Nat.cast_nonneg _
+
+theorem delta_nonneg (p : Pattern) : 0 ≤ delta p := by
+  unfold delta
+  have := deltaForm_nonneg 5 p
+  have := deltaForm_nonneg 6 p
+  apply div_nonneg <;> linarith
+
 end Cider
